@@ -58,6 +58,8 @@ func NewSession(cfg Cfg) *Session {
 		s.Cache = mast.NewNodeCache(100000)
 	case "tiny":
 		s.Cache = mast.NewNodeCache(2)
+	case "one":
+		s.Cache = mast.NewNodeCache(1)
 	case "recbig":
 		s.Cache = &recCache{inner: mast.NewNodeCache(100000), seen: map[string]interface{}{}}
 	case "rectiny":
